@@ -1,15 +1,6 @@
 package codec
 
 import (
-	"reflect"
-	"strconv"
-	"strings"
-
-	"github.com/cosmos/gogoproto/proto"
-
-	sdkmath "cosmossdk.io/math"
-
-	codectypes "github.com/cosmos/cosmos-sdk/codec/types"
 	sdk "github.com/cosmos/cosmos-sdk/types"
 
 	cmtproto "github.com/cometbft/cometbft/proto/tendermint/types"
@@ -21,11 +12,11 @@ import (
 	ibctm "github.com/cosmos/ibc-go/v11/modules/light-clients/07-tendermint"
 )
 
-// Panics found on the unchanged tree (candidates for known_findings.json, property C47).
-// For each: the structural signature produced by panicSite, a deterministic minimal input
-// (c47Demos) that re-demonstrates it through vx.Violatef on every run, and a repair that
-// removes exactly that shape from generated messages (counted as excluded_known) so that
-// the search continues behind it.
+// Panics found on the snapshot tree and repaired by the fix: commits prepared under
+// /verif/fixes (C47-*.diff). For each: the structural signature produced by panicSite and a
+// deterministic minimal input (c47Demos) that is replayed on every run as a plain
+// regression case. The generators do not avoid these shapes: on an unfixed tree they are
+// found again both by these cases and by the random search.
 const (
 	sigTMMisbehaviour   = "panic:nil-deref@light-clients/07-tendermint.Misbehaviour.ValidateBasic"
 	sigAddRateLimit     = "panic:nil-deref@apps/rate-limiting/types.(*MsgAddRateLimit).ValidateBasic"
@@ -49,7 +40,9 @@ var c47Demos = []c47Demo{
 			return &ibctm.Header{TrustedHeight: clienttypes.NewHeight(0, 1), TrustedValidators: &cmtproto.ValidatorSet{}}
 		}
 		m := ibctm.Misbehaviour{ClientId: "07-tendermint-0", Header1: h(), Header2: h()}
-		noPanic(out, "tendermint.Misbehaviour.ValidateBasic", func() string { return "Misbehaviour{Header1,Header2: {TrustedHeight 0-1, TrustedValidators {}, no SignedHeader}}" }, func() { _ = m.ValidateBasic() })
+		noPanic(out, "tendermint.Misbehaviour.ValidateBasic", func() string {
+			return "Misbehaviour{Header1,Header2: {TrustedHeight 0-1, TrustedValidators {}, no SignedHeader}}"
+		}, func() { _ = m.ValidateBasic() })
 	}},
 	{sigAddRateLimit, "MsgAddRateLimit without max_percent_send / max_percent_recv", func(out *findings) {
 		m := &ratelimittypes.MsgAddRateLimit{Signer: goodAddr, Denom: "uatom", ChannelOrClientId: "channel-0"}
@@ -77,126 +70,4 @@ var c47Demos = []c47Demo{
 	{sigParseChainID, "chain id in revision format whose revision number exceeds uint64", func(out *findings) {
 		noPanic(out, "clienttypes.ParseChainID", func() string { return `"a-18446744073709551616"` }, func() { clienttypes.ParseChainID("a-18446744073709551616") })
 	}},
-}
-
-// chainIDOverflowShape: revision format with a revision number that does not fit uint64.
-func chainIDOverflowShape(s string) bool {
-	if !clienttypes.IsRevisionFormat(s) {
-		return false
-	}
-	_, err := strconv.ParseUint(s[strings.LastIndex(s, "-")+1:], 10, 64)
-	return err != nil
-}
-
-// repairKnown removes the recorded defect shapes from a built message (recursively,
-// including values cached inside Any) and returns how many it removed.
-func repairKnown(m proto.Message) int {
-	n := 0
-	repairValue(reflect.ValueOf(m), &n, 0)
-	return n
-}
-
-func zeroIfNil(i *sdkmath.Int, n *int) {
-	if i.IsNil() {
-		*i = sdkmath.ZeroInt()
-		*n++
-	}
-}
-
-func repairValue(v reflect.Value, n *int, depth int) {
-	if depth > 12 {
-		return
-	}
-	switch v.Kind() {
-	case reflect.Ptr:
-		if v.IsNil() {
-			return
-		}
-		switch x := v.Interface().(type) {
-		case *codectypes.Any:
-			if cached, ok := x.GetCachedValue().(proto.Message); ok && cached != nil {
-				before := *n
-				repairValue(reflect.ValueOf(cached), n, depth+1)
-				if *n != before {
-					if a, err := codectypes.NewAnyWithValue(cached); err == nil {
-						*x = *a
-					}
-				}
-			}
-			return
-		case *ibctm.Misbehaviour:
-			for _, h := range []*ibctm.Header{x.Header1, x.Header2} {
-				if h != nil && (h.SignedHeader == nil || h.SignedHeader.Header == nil) {
-					h.SignedHeader = &cmtproto.SignedHeader{Header: &cmtproto.Header{}}
-					*n++
-				}
-			}
-		case *ratelimittypes.MsgAddRateLimit:
-			zeroIfNil(&x.MaxPercentSend, n)
-			zeroIfNil(&x.MaxPercentRecv, n)
-		case *ratelimittypes.MsgUpdateRateLimit:
-			zeroIfNil(&x.MaxPercentSend, n)
-			zeroIfNil(&x.MaxPercentRecv, n)
-		case *solomachine.ClientState:
-			if x.ConsensusState == nil {
-				x.ConsensusState = &solomachine.ConsensusState{}
-				*n++
-			}
-		case *solomachine.Misbehaviour:
-			if x.SignatureOne == nil {
-				x.SignatureOne = &solomachine.SignatureAndData{}
-				*n++
-			}
-			if x.SignatureTwo == nil {
-				x.SignatureTwo = &solomachine.SignatureAndData{}
-				*n++
-			}
-		case *transfertypes.TransferAuthorization:
-			for i := range x.Allocations {
-				for j := range x.Allocations[i].SpendLimit {
-					zeroIfNil(&x.Allocations[i].SpendLimit[j].Amount, n)
-				}
-			}
-		case *clienttypes.MsgCreateClient:
-			if x.ClientState == nil {
-				x.ClientState = &codectypes.Any{}
-				*n++
-			}
-			if x.ConsensusState == nil {
-				x.ConsensusState = &codectypes.Any{}
-				*n++
-			}
-		}
-		repairValue(v.Elem(), n, depth+1)
-	case reflect.Struct:
-		if v.Type() == typInt || v.Type() == typTime || v.Type() == typDec {
-			return
-		}
-		for i := 0; i < v.NumField(); i++ {
-			fv := v.Field(i)
-			if !fv.CanSet() {
-				continue
-			}
-			if fv.Kind() == reflect.String {
-				name := v.Type().Field(i).Name
-				if (name == "ChainId" || name == "ChainID") && chainIDOverflowShape(fv.String()) {
-					fv.SetString("testchain-1")
-					*n++
-				}
-				continue
-			}
-			repairValue(fv, n, depth+1)
-		}
-	case reflect.Slice:
-		if v.Type().Elem().Kind() == reflect.Uint8 {
-			return
-		}
-		for i := 0; i < v.Len(); i++ {
-			repairValue(v.Index(i), n, depth+1)
-		}
-	case reflect.Interface:
-		if !v.IsNil() {
-			repairValue(v.Elem(), n, depth+1)
-		}
-	}
 }
